@@ -325,7 +325,7 @@ std::string stmt_str(const Stmt& s) {
 // decoder
 struct Param { uint8_t kind = EA_IN; const char* name = "p0"; Val v; };
 struct Spec { int scope = 0; bool viaScopeFn = false; const char* fname = "f"; uint8_t ekind = 0; unsigned n = 1; std::vector<Param> params; bool ignoreOthers = false; bool hasRet = false; Val ret; };
-struct Program { std::vector<Stmt> st; unsigned deviation = 0; const char* devName = "none"; };
+struct Program { std::vector<Stmt> st; size_t tdStart = 0; unsigned deviation = 0; const char* devName = "none"; };   // st[tdStart..) run in the test's teardown
 
 const char* const DEV_NAME[] = {"none", "wrong-value", "wrong-type", "missing-parameter", "extra-parameter", "extra-call", "missing-call", "wrong-function",
                                 "wrong-getter", "wrong-scope", "out-of-order", "output-type-mismatch", "no-comparator"};
@@ -596,6 +596,54 @@ void build(Reader& r, Program& P) {
     else if (e2 == 2) { P.st.push_back(simple(OP_CLEAR, 0)); P.st.push_back(simple(OP_LEFT, 0)); }
     else if (e2 == 3) { Stmt g = simple(OP_SGET, 0); g.g = gen_free_getter(r); P.st.push_back(g); }
     if (P.st.size() > 60) P.st.resize(60);
+
+    // ---- tail section: read AFTER everything the earlier versions of the decoder read, so an input that ends here keeps its meaning
+    // (1) up to 3 extra statements / blocks inserted anywhere in the body except between an actual call and the late use of its handle
+    unsigned nx = r.below(4);
+    for (unsigned q = 0; q < nx; q++) {
+        std::vector<size_t> allowed;
+        bool prot = false;   // position p (= before st[p]) is protected when it lies after an ACTUAL whose handle is still to be used
+        for (size_t p = 0; p <= P.st.size(); p++) {
+            if (!prot) allowed.push_back(p);
+            if (p < P.st.size()) {
+                if (P.st[p].op == OP_ACTUAL) { prot = false; for (size_t j = p + 1; j < P.st.size() && P.st[j].op != OP_ACTUAL; j++) if (P.st[j].op == OP_LATE) prot = true; }
+                else if (P.st[p].op == OP_LATE) prot = false;
+            }
+        }
+        size_t pos = allowed[r.below((uint32_t)allowed.size())];
+        std::vector<Stmt> ins;
+        int near = pos > 0 ? P.st[pos - 1].scope : 0;
+        if (r.below(4) == 3) {
+            // a scope first used (or used again) while the global mock is disabled, then enabled through the global mock
+            int ns = 1 + (int)r.below(2);
+            ins.push_back(simple(OP_DISABLE, 0));
+            Stmt a = simple(OP_ACTUAL, ns, FNAMES[r.below(3)]); a.g = gen_free_getter(r); ins.push_back(a);
+            Stmt e = simple(OP_EXPECT, ns, "g"); Arg x; x.kind = EA_RETURN; x.v = gen_val(r, T_INT); e.args.push_back(x); ins.push_back(e);
+            ins.push_back(simple(OP_ENABLE, r.flag() ? 0 : ns));
+            Stmt b = simple(OP_ACTUAL, ns, "g"); b.g.kind = G_TYPED; b.g.t = T_INT; ins.push_back(b);
+        } else gen_free(r, ins, near);
+        P.st.insert(P.st.begin() + (long)pos, ins.begin(), ins.end());
+    }
+    // (2) up to 3 statements executed in the test's TEARDOWN, i.e. also after the body has failed (a mock failure then neither
+    //     terminates nor is reported again: the "test has already failed" paths of both reporters)
+    P.tdStart = P.st.size();
+    unsigned ntd = r.below(4);
+    for (unsigned q = 0; q < ntd; q++) {
+        int sc = gen_scope(r);
+        switch (r.below(8)) {
+        case 0: P.st.push_back(simple(OP_CHECK, 0)); break;
+        case 1: P.st.push_back(simple(OP_LEFT, sc)); break;
+        case 2: P.st.push_back(simple(OP_CHECK, sc)); break;
+        case 3: { Stmt a = simple(OP_ACTUAL, sc, FNAMES[r.below(3)]);
+                  if (r.flag()) { Arg x; x.kind = AA_IN; x.name = PNAMES[r.below(2)]; x.v = gen_val(r, (VT)r.below(T_N)); a.args.push_back(x); }
+                  if (r.flag()) { Arg x; x.kind = AA_OUT; x.name = "p1"; x.out = 3; a.args.push_back(x); }
+                  a.g = gen_free_getter(r); P.st.push_back(a); break; }
+        case 4: P.st.push_back(simple(OP_CLEAR, r.flag() ? 0 : sc)); break;
+        case 5: { Stmt g = simple(OP_SGET, sc); g.g = gen_free_getter(r); P.st.push_back(g); break; }
+        case 6: P.st.push_back(simple(OP_GETDATA, sc, DNAMES[r.below(2)])); break;
+        case 7: { Stmt e = simple(OP_EXPECT, sc, FNAMES[r.below(3)]); e.ekind = (uint8_t)r.below(3); e.n = r.below(3); P.st.push_back(e); break; }
+        }
+    }
 }
 
 // ---------------------------------------------------------------------------------------------------------------------
@@ -667,7 +715,9 @@ struct Ctx {
     MockActualCall_c* handleC = nullptr; MockSupport_c* lastSupportC = nullptr;  // B
     int curScope = 0;                       // A: scope selected by the most recent statement that addressed a mock
     std::vector<Entry> trace;
-    bool completed = false;
+    bool completed = false;      // the body ran to its end
+    bool tdCompleted = false;    // the teardown ran to its end
+    size_t tdStart = 0;
     unsigned actualCalls = 0, valueGetters = 0;
     // model of which object the C statics point to (maintained by A only)
     bool hasLive[3] = {false, false, false};
@@ -713,10 +763,9 @@ std::string out_bytes(const Stmt& s) {
 
 // ---------------------------------------------------------------------------------------------------------------------
 // interpreter A: the C++ interface
-void run_cpp(void* arg) {
-    Ctx* c = (Ctx*)arg;
+void run_cpp_range(Ctx* c, size_t from, size_t to) {
     const std::vector<Stmt>& prog = *c->prog;
-    for (size_t k = 0; k < prog.size(); k++) {
+    for (size_t k = from; k < to; k++) {
         const Stmt& s = prog[k];
         // exclusions by construction (decided before the statement touches anything)
         if (s.op == OP_SGET && s.g.kind != G_HAS) {
@@ -969,7 +1018,18 @@ void run_cpp(void* arg) {
         case OP_CRASH: m.crashOnFailure(s.flag); break;
         }
     }
-    c->completed = true;
+}
+void run_cpp(void* arg) { Ctx* c = (Ctx*)arg; run_cpp_range(c, 0, c->tdStart); c->completed = true; }
+void teardown_cpp(void* arg) {
+    Ctx* c = (Ctx*)arg;
+    if (!c->completed) {
+        // the body was terminated by a failure; MockSupport::failTest may have cleared mocks (deleting actual calls and scopes):
+        // until the next actual call nothing is assumed about the object the C static points to
+        for (int sc = 0; sc < 3; sc++) c->hasLive[sc] = false;
+        c->staticValid = false;
+    }
+    run_cpp_range(c, c->tdStart, c->prog->size());
+    c->tdCompleted = true;
 }
 
 // ---------------------------------------------------------------------------------------------------------------------
@@ -978,10 +1038,9 @@ void run_cpp(void* arg) {
 #define CE(fn) (verif::cls("MockExpectedCall_c." #fn), e->fn)
 #define CA(fn) (verif::cls("MockActualCall_c." #fn), a->fn)
 
-void run_c(void* arg) {
-    Ctx* c = (Ctx*)arg;
+void run_c_range(Ctx* c, size_t from, size_t to) {
     const std::vector<Stmt>& prog = *c->prog;
-    for (size_t k = 0; k < prog.size(); k++) {
+    for (size_t k = from; k < to; k++) {
         const Stmt& s = prog[k];
         if ((*c->skip)[k] == 1) continue;
         bool noGetter = (*c->skip)[k] == 2;
@@ -1194,7 +1253,13 @@ void run_c(void* arg) {
         case OP_CRASH: CS(crashOnFailure)(s.flag ? 1u : 0u); break;
         }
     }
-    c->completed = true;
+}
+void run_c(void* arg) { Ctx* c = (Ctx*)arg; run_c_range(c, 0, c->tdStart); if (!c->probeFailed) c->completed = true; }
+void teardown_c(void* arg) {
+    Ctx* c = (Ctx*)arg;
+    if (c->probeFailed) return;
+    run_c_range(c, c->tdStart, c->prog->size());
+    c->tdCompleted = true;
 }
 
 void cleanup() {
@@ -1206,11 +1271,23 @@ void cleanup() {
 }
 
 struct RunResult { verif::FixtureRun fr; std::string outs; int crashes; };
-RunResult run_side(void (*body)(void*), Ctx& c) {
+Ctx* g_td_ctx; void (*g_td_fn)(void*);
+void td_trampoline() { g_td_fn(g_td_ctx); }
+RunResult run_side(void (*body)(void*), void (*teardown)(void*), Ctx& c) {
     RunResult rr;
     reset_out();
     g_crash_count = 0;
-    rr.fr = verif::run_in_fixture(body, &c);
+    {   // like verif::run_in_fixture, plus a teardown
+        TestTestingFixture fixture;
+        verif::ExecLambda ex(body, &c);
+        fixture.setTestFunction(&ex);
+        g_td_ctx = &c; g_td_fn = teardown;
+        fixture.setTeardown(td_trampoline);
+        fixture.runAllTests();
+        rr.fr.failures = fixture.getFailureCount();
+        rr.fr.checks = fixture.getCheckCount();
+        rr.fr.output = fixture.getOutput().asCharString();
+    }
     rr.crashes = g_crash_count;
     rr.outs = hex(&OUT[0][0], sizeof OUT);
     cleanup();
@@ -1219,7 +1296,7 @@ RunResult run_side(void (*body)(void*), Ctx& c) {
 
 std::string program_text(const Program& P) {
     std::string o = sfmt("[deviation=%s] ", P.devName);
-    for (size_t k = 0; k < P.st.size(); k++) o += sfmt("#%zu %s; ", k, stmt_str(P.st[k]).c_str());
+    for (size_t k = 0; k < P.st.size(); k++) o += sfmt("#%zu %s%s; ", k, k >= P.tdStart ? "[teardown] " : "", stmt_str(P.st[k]).c_str());
     return o;
 }
 
@@ -1245,16 +1322,18 @@ extern "C" int verif_case(const uint8_t* data, size_t size) {
     const size_t n = P.st.size();
     if (verif::g_explain) {
         fprintf(stderr, "deviation: %s\n", P.devName);
-        for (size_t k = 0; k < n; k++) fprintf(stderr, "  #%zu %s\n", k, stmt_str(P.st[k]).c_str());
+        for (size_t k = 0; k < n; k++) fprintf(stderr, "  #%zu %s%s\n", k, k >= P.tdStart ? "[teardown] " : "", stmt_str(P.st[k]).c_str());
+        fprintf(stderr, "consumed %zu of %zu input bytes\n", r.i < r.n ? r.i : r.n, r.n);
     }
     std::vector<char> skip(n, 0), dcond(n, 0), rcond(n, 0), hcond(n, 0);
     Ctx A, B;
     A.prog = B.prog = &P.st; A.skip = B.skip = &skip; A.dcond = B.dcond = &dcond; A.rcond = B.rcond = &rcond; A.hcond = B.hcond = &hcond;
     cleanup();
     verif::fake_millis_value = 0;
-    RunResult ra = run_side(run_cpp, A);
+    A.tdStart = B.tdStart = P.tdStart;
+    RunResult ra = run_side(run_cpp, teardown_cpp, A);
     verif::fake_millis_value = 0;
-    RunResult rb = run_side(run_c, B);
+    RunResult rb = run_side(run_c, teardown_c, B);
 
     if (verif::g_explain) {
         fprintf(stderr, "C++: failures=%zu checks=%zu completed=%d crashes=%d\n", ra.fr.failures, ra.fr.checks, A.completed, ra.crashes);
@@ -1292,7 +1371,7 @@ extern "C" int verif_case(const uint8_t* data, size_t size) {
     // that condition was executed (only possible while the finding is NOT listed, so nothing is masked)
     const char* attributed = nullptr;
     for (size_t k = 0; k < n; k++) { if (hcond[k] && !skip[k]) attributed = K_HANDLE; if (dcond[k] && !skip[k] && !attributed) attributed = K_STATIC; }
-    if (rc == 0 && (ra.fr.failures != rb.fr.failures || A.completed != B.completed))
+    if (rc == 0 && (ra.fr.failures != rb.fr.failures || A.completed != B.completed || A.tdCompleted != B.tdCompleted))
         rc = verif::fail(attributed ? attributed : "C19:verdict-differs", "C++: %zu failure(s), body %s; C: %zu failure(s), body %s; C++ text [%s] C text [%s] | %s",
                          ra.fr.failures, A.completed ? "completed" : "terminated", rb.fr.failures, B.completed ? "completed" : "terminated",
                          first_line(ra.fr.output).c_str(), first_line(rb.fr.output).c_str(), ptxt.c_str());
